@@ -194,7 +194,6 @@ def cid (tm : Tmpl) : Str := moduleId tm.uri
 structure Backend (R : Type) where
   regionOf : Kw → R                -- which container the keyword arguments select
   passContext : Bool               -- `CacheImpl.pass_context`
-  hasSet : Bool                    -- the implementation overrides `CacheImpl.set` (which raises `NotImplementedError`)
 
 inductive BeOp
   | goc | set (v : Str) | get | inv
@@ -311,7 +310,6 @@ inductive Resp
   | got (v : Option Str)
   | unit
   | noTemplate
-  | notImplemented                 -- `NotImplementedError` out of `CacheImpl.set`
   deriving DecidableEq, Repr
 
 structure World (R : Type) where
@@ -351,8 +349,7 @@ def step (w : World R) (st : St R) : Op → Resp × St R
     | none => (.noTemplate, st)
     | some tm =>
       let a := aUpdate tm.cacheArgs kw
-      if w.be.hasSet then (.unit, (st.emit (.call t (.set v) (cid tm) k a)).put (cid tm, w.be.regionOf a, k) v)
-      else (.notImplemented, st)
+      (.unit, (st.emit (.call t (.set v) (cid tm) k a)).put (cid tm, w.be.regionOf a, k) v)
   | .get t k kw =>
     match w.tmpls[t]? with
     | none => (.noTemplate, st)
